@@ -142,6 +142,16 @@ class _E1(ast.NodeTransformer):
             n.attr = NP_ALIASES[n.attr]
         return n
 
+    def visit_IfExp(self, n):
+        self.generic_visit(n)
+        # f(a) if c else f(b)  ->  f(a if c else b)      (same callee, one differing positional argument, no keywords)
+        a, b = n.body, n.orelse
+        if isinstance(a, ast.Call) and isinstance(b, ast.Call) and ast.dump(a.func) == ast.dump(b.func) and len(a.args) == len(b.args) == 1 \
+                and not a.keywords and not b.keywords and _pure_expr(a) and _pure_expr(b):
+            inner = ast.IfExp(test=n.test, body=a.args[0], orelse=b.args[0])
+            return ast.copy_location(ast.Call(func=a.func, args=[inner], keywords=[]), n)
+        return n
+
     def visit_Raise(self, n):
         self.generic_visit(n)
         # the text of a message is not behaviour any property speaks about
@@ -1038,6 +1048,97 @@ def _split_multi_defs(fn):
     return changed
 
 
+def _split_loop_vars(fn):
+    """Loop variables that share a spelling across separate (not nested) loops are given one name per loop, when the name is bound
+    only by for-loops and never read outside them."""
+    params = {a.arg for a in fn.args.posonlyargs + fn.args.args + fn.args.kwonlyargs}
+    loops = {}
+    for n in ast.walk(fn):
+        if isinstance(n, (ast.For, ast.AsyncFor)) and isinstance(n.target, ast.Name):
+            loops.setdefault(n.target.id, []).append(n)
+    changed = False
+    k = 0
+    for nm, ls in loops.items():
+        if len(ls) < 2 or nm in params:
+            continue
+        stores = [x for x in ast.walk(fn) if isinstance(x, ast.Name) and x.id == nm and isinstance(x.ctx, (ast.Store, ast.Del))]
+        if len(stores) != len(ls):
+            continue
+        nested = any(a is not b and any(x is b for x in ast.walk(a)) for a in ls for b in ls)
+        if nested:
+            continue
+        inside = sum(1 for l in ls for st in l.body + l.orelse for x in ast.walk(st) if isinstance(x, ast.Name) and x.id == nm and isinstance(x.ctx, ast.Load))
+        total = sum(1 for x in ast.walk(fn) if isinstance(x, ast.Name) and x.id == nm and isinstance(x.ctx, ast.Load))
+        if inside != total:
+            continue
+        for l in ls:
+            k += 1
+            new = '%s__l%d' % (nm, k)
+            l.target.id = new
+            for st in l.body + l.orelse:
+                for x in ast.walk(st):
+                    if isinstance(x, ast.Name) and x.id == nm:
+                        x.id = new
+        changed = True
+    return changed
+
+
+def _sink_definitions(fn):
+    """`t = <pure expr over stable names>` is moved down to just before the first statement of its block that mentions t, when every
+    statement it passes is effect-free (so nothing can observe, or pre-empt, the move).  Brings 'output allocated up front' and
+    'allocated where it is filled' to one form."""
+    mut, stores = _mutated_names(fn)
+    changed = False
+    for owner in ast.walk(fn):
+        for fld in ('body', 'orelse', 'finalbody'):
+            body = getattr(owner, fld, None)
+            if not (isinstance(body, list) and len(body) > 2 and isinstance(body[0], ast.stmt)) or isinstance(owner, ast.Lambda):
+                continue
+            i = len(body) - 2
+            while i >= 0:
+                st = body[i]
+                i -= 1
+                if isinstance(st, ast.Assign) and len(st.targets) == 1 and isinstance(st.targets[0], ast.Name) and _pure_expr(st.value) \
+                        and stores.get(st.targets[0].id) == 1:
+                    i0 = i + 1
+                    nm = st.targets[0].id
+                    free = {x.id for x in ast.walk(st.value) if isinstance(x, ast.Name)}
+                    j = i0 + 1
+                    while j < len(body):
+                        nxt = body[j]
+                        mentions = any(isinstance(x, ast.Name) and x.id == nm for x in ast.walk(nxt))
+                        if mentions:
+                            break
+                        m2, s2 = _mutated_names(nxt)
+                        simple_pure = isinstance(nxt, ast.Assign) and all(isinstance(t, ast.Name) for t in nxt.targets) and _pure_expr(nxt.value)
+                        guarded_pure = isinstance(nxt, ast.If) and _pure_expr(nxt.test) and all(
+                            isinstance(x, ast.Assign) and all(isinstance(t, ast.Name) for t in x.targets) and _pure_expr(x.value) for x in nxt.body + nxt.orelse)
+                        if not (simple_pure or guarded_pure) or ((m2 | set(s2)) & free):
+                            break
+                        j += 1
+                    if j > i0 + 1 and j < len(body) and any(isinstance(x, ast.Name) and x.id == nm for x in ast.walk(body[j])):
+                        body.insert(j - 1, body.pop(i0))
+                        changed = True
+            # runs of adjacent, mutually independent pure definitions get a canonical order
+            k = 0
+            while k < len(body):
+                run = []
+                while k < len(body) and isinstance(body[k], ast.Assign) and len(body[k].targets) == 1 and isinstance(body[k].targets[0], ast.Name) \
+                        and _pure_expr(body[k].value) and stores.get(body[k].targets[0].id) == 1:
+                    run.append(body[k])
+                    k += 1
+                if len(run) > 1:
+                    names = {r.targets[0].id for r in run}
+                    indep = all(not ({x.id for x in ast.walk(r.value) if isinstance(x, ast.Name)} & (names - {r.targets[0].id})) for r in run)
+                    if indep:
+                        srt = sorted(run, key=lambda r: ast.dump(r.value))
+                        if [id(x) for x in srt] != [id(x) for x in run]:
+                            body[k - len(run):k] = srt
+                            changed = True
+                k += 1
+    return changed
+
+
 def _forward_subst(fn, module_exprs=None):
     """A local bound exactly once to a pure expression over stable names reads as that expression; so does a module-level NAME bound
     once to a pure expression (a compiled pattern, a tuple of names, a number).  'Stable' = never re-bound, never assigned through,
@@ -1417,11 +1518,13 @@ def helper_expression(g):
         c.body = body[1:] or [ast.Pass()]
     for _ in range(6):
         before = ast.dump(c)
-        while _stmt_pass(c):
-            pass
+        for _cap in range(40):
+            if not _stmt_pass(c):
+                break
         _ifexp_assign(c)
-        while _inline_pass(c):
-            pass
+        for _cap in range(40):
+            if not _inline_pass(c):
+                break
         _forward_subst(c)
         _return_ifexp(c)
         if ast.dump(c) == before:
@@ -1479,10 +1582,12 @@ def normal_form(fn, callee_info=None, consts=None):
     for _ in range(6):
         before = ast.dump(c)
         c = _E1(callee_info).visit(c)
-        while _stmt_pass(c):
-            pass
-        while _inline_pass(c):
-            pass
+        for _cap in range(40):
+            if not _stmt_pass(c):
+                break
+        for _cap in range(40):
+            if not _inline_pass(c):
+                break
         _copy_prop(c)
         _getattr_default(c)
         _tail_returns(c)
@@ -1493,6 +1598,8 @@ def normal_form(fn, callee_info=None, consts=None):
         _guard_continue(c)
         _loop_to_comprehension(c)
         _split_multi_defs(c)
+        _split_loop_vars(c)
+        _sink_definitions(c)
         _forward_subst(c, getattr(consts, 'exprs', None))
         c = _FoldConst().visit(c)
         if ast.dump(c) == before:
